@@ -201,7 +201,15 @@ def one_case(rec, tap, rng, cid):
                 % (k, e, tol, pf[k].value, full[k]), case)
         cdev = float(np.max(np.abs(fitcol - clean))) / span
         rec.maximum("noise-free |fit-data|/span (%s)" % method, cdev)
-        rec.check(cdev <= tol, "noise-free/%s/curve" % method,
+        ctol = tol
+        if method == "nelder":
+            # parameters within `tol` of their scales (modulus: relative,
+            # contact point: of the travel, baseline: of the span) move the
+            # curve at the deepest point by up to tol (1 + p travel/depth + 1)
+            # of the span, p <= 2: the curve cannot be asked to agree better
+            # than the precision granted to the parameters
+            ctol = tol * (2 + 2 * travel / max(depth, 1e-12))
+        rec.check(cdev <= ctol, "noise-free/%s/curve" % method,
                   "max |fit - data| = %.3e of the force span" % cdev, case)
         return
     # ---- noisy data
